@@ -64,7 +64,7 @@ fn mparse(v: &Value) -> Option<M> {
 fn doc_json(d: &D) -> Value {
   let mut o = props_v(d.props);
   o.insert("id".into(), json!(did_s(d.id)));
-  if !d.ctrl.is_empty() { o.insert("controller".into(), if d.ctrl.len() == 1 { json!(did_s(d.ctrl[0])) } else { json!(d.ctrl.iter().map(|c| did_s(*c)).collect::<Vec<_>>()) }); }
+  if !d.ctrl.is_empty() { o.insert("controller".into(), if d.ctrl.len() == 1 && (d.ctrl[0] + d.id + d.props) % 2 == 0 { json!(did_s(d.ctrl[0])) } else {   /* a single controller in both JSON spellings: string, one-element array */ json!(d.ctrl.iter().map(|c| did_s(*c)).collect::<Vec<_>>()) }); }
   if !d.aka.is_empty() { o.insert("alsoKnownAs".into(), json!(d.aka.iter().map(|k| aka_s(*k)).collect::<Vec<_>>())); }
   if !d.vm.is_empty() { o.insert("verificationMethod".into(), Value::Array(d.vm.iter().map(mjson).collect())); }
   for (k, name) in RELN.iter().enumerate() { if !d.rels[k].is_empty() { o.insert(name.to_string(), Value::Array(d.rels[k].iter().map(|e| match e { E::Embed(m) => mjson(m), E::Refer(u) => json!(ustr(*u)) }).collect())); } }
